@@ -27,7 +27,7 @@ def make(prefix, idx, depth, made):
         if depth < 2 and made and k < 0.25:
             fields.append((nm, ("set", R.choice(made))))
         else:
-            fields.append((nm, ("probe", R.choice(["Probe", "Probe", "Probe2"]))))
+            fields.append((nm, ("probe", R.choice(["Probe", "Probe", "Probe2", "Probe3"]))))
     style = R.choice(["oneline", "multiline", "oneline"])
     if idx >= 20:
         # the last shapes are stamped out by a `macro_rules!` helper whose field types arrive as `$ty:ty` fragments
@@ -49,7 +49,7 @@ def tree(shape, shapes, counter):
     parts = []
     for nm, (k, t) in shape["fields"]:
         if k == "probe":
-            parts.append(f"{'p' if t == 'Probe' else 'q'}{counter[0]}")
+            parts.append(f"{'q' if t == 'Probe2' else 'p'}{counter[0]}")
             counter[0] += 1
         else:
             parts.append("( " + tree(shapes[t], shapes, counter) + " )")
